@@ -466,9 +466,21 @@ func (w *worker) process(jb *job) (replayed, skipped, changing int64, ok bool) {
 		if err != nil {
 			panic(err)
 		}
-		if d := in.CheckState(&jb.state, nil, nil); len(d) == 0 {
+		d := in.CheckState(&jb.state, nil, nil)
+		if len(d) == 0 {
 			inst, chain = in, c
 			break
+		}
+		if len(c) == 0 {
+			// an initial state: no call has been made yet, so the fixture as the real code holds it does not match the
+			// model's initial state. That is a disagreement of its own (every later state would be unbuildable and unchecked)
+			initRaw := ""
+			if jb.init != nil {
+				initRaw = jb.init.Raw
+			}
+			for _, dv := range d {
+				w.col.add(dv, Example{Init: initRaw, State: jb.state.Raw, History: nil, Call: "(initial state)", Expected: jb.state.Raw, Detail: dv.Detail})
+			}
 		}
 		in.Close()
 	}
